@@ -48,10 +48,17 @@ func TestMain(m *testing.M) {
 // ================================================================ guard
 //
 // No oracle depends on time.  Goroutines are joined with WaitGroups / channels.  The guard is only a backstop
-// against a harness deadlock (or a hang of the code under test that no oracle explains): when it expires the
-// case is reported as "inconclusive" (label + note in the evidence, case skipped), never as a violation.
+// against a harness deadlock or a hang of the code under test that no oracle explains (for instance accepted
+// messages that never leave the sender while the connection stays up): when it expires the case is reported
+// as "inconclusive" (label + note in the evidence, case skipped), never as a violation.  Cases take
+// milliseconds, so the guard is generous by three orders of magnitude.  A process that runs into the guard
+// three times stops without a verdict (the driver reports that as an infrastructure problem, exit 2) instead
+// of spending the whole budget waiting.
 
-const guard = 45 * time.Second
+const guard = 20 * time.Second
+const maxInconclusive = 3
+
+var inconclusiveSeen int32
 
 func wgChan(wg *sync.WaitGroup) <-chan struct{} {
 	ch := make(chan struct{})
@@ -89,7 +96,16 @@ func wantSample() bool {
 
 func inconclusive(t *rapid.T, what string) {
 	vstat.Label("inconclusive_guard_expired")
+	if len(what) > 600 {
+		what = what[:600] + "..."
+	}
 	vstat.Note("inconclusive (guard expired, no verdict): " + what)
+	if atomic.AddInt32(&inconclusiveSeen, 1) >= maxInconclusive {
+		vstat.Note("process stopped after repeated guard expiry")
+		vstat.Flush()
+		fmt.Fprintf(os.Stderr, "C18: guard expired %d times in this process, stopping without a verdict; last: %s\n", maxInconclusive, what)
+		os.Exit(3)
+	}
 	t.Skipf("inconclusive: %s", what)
 }
 
@@ -1266,8 +1282,9 @@ func TestMConnChannels(t *testing.T) { rapid.Check(t, runMconn) }
 //   - K == T's own key, or K == the victim's key (the victim takes no part in this session), is a violation:
 //     nobody on the other end of T's wire can sign with it;
 //   - any other K is a key M itself chose (its own long-term keys, or degenerate keys) and is allowed.
-// Control direction (harness sanity, not part of the property): an untouched relay and an active M using its
-// own key with a correct signature must succeed, otherwise the operators are not exercising what they claim.
+// Control direction (not part of the property, asserted by the plain TestHandshakeControls and only labelled in
+// the rapid check): an untouched relay and an active M using its own key with a correct signature must succeed,
+// otherwise the operators do not exercise what they claim.
 
 const kReflection = "handshake:reflected-own-auth-accepted"
 
@@ -1647,7 +1664,9 @@ func runHandshake(t *rapid.T) {
 	runHandshakePlan(t, pl)
 }
 
-func runHandshakePlan(t vstat.TB, pl hsPlan) {
+// runHandshakePlan executes one plan and applies the oracle.  It returns what each side reported and whether a
+// control expectation failed (an untouched relay, or the attacker's own key with a correct signature, rejected).
+func runHandshakePlan(t vstat.TB, pl hsPlan) (out [2]hsResult, controlFailed bool) {
 	keys := [2]crypto.PrivKey{mkKey("A", pl.KA), mkKey("B", pl.KB)}
 	kV := mkKey("V", pl.KV)
 	kMed := crypto.GenPrivKeyEd25519FromSecret([]byte(fmt.Sprintf("c18/M-ed/%d", pl.Seed)))
@@ -1867,12 +1886,11 @@ func runHandshakePlan(t vstat.TB, pl hsPlan) {
 				parsed = true // everything parsed; only the signature check stopped it
 				vstat.Label("hs_rejected_at_signature_check")
 			}
-			// control direction
-			if ephClean && proceeds(s.Eph) && (s.Auth == "peer" || s.Auth == "dup") && authOf[o] != nil {
-				t.Fatalf("harness sanity: untouched relay rejected on side %s: %v; plan %+v", name, r.err, pl)
-			}
-			if proceeds(s.Eph) && ownKeySigned[i] {
-				t.Fatalf("harness sanity: active attacker with its own key and a correct signature rejected on side %s: %v; plan %+v", name, r.err, pl)
+			// control direction (not part of the property; asserted by TestHandshakeControls)
+			if (ephClean && proceeds(s.Eph) && (s.Auth == "peer" || s.Auth == "dup") && authOf[o] != nil) || (proceeds(s.Eph) && ownKeySigned[i]) {
+				vstat.Label("hs_control_failed")
+				vstat.Note(fmt.Sprintf("control failed: side %s rejected an untouched relay / a correct signature by the attacker's own key: %v", name, r.err))
+				controlFailed = true
 			}
 			continue
 		}
@@ -1925,6 +1943,7 @@ func runHandshakePlan(t vstat.TB, pl hsPlan) {
 				"a_ok": res[0].ok, "b_ok": res[1].ok, "a_err": fmt.Sprint(res[0].err), "b_err": fmt.Sprint(res[1].err)})
 		}
 	}
+	return res, controlFailed
 }
 
 func TestHandshakeMITM(t *testing.T) { rapid.Check(t, runHandshake) }
@@ -1937,4 +1956,37 @@ func TestRegressionReflection(t *testing.T) {
 	pl.Side[0] = sidePlan{Eph: "self", Auth: "self", Hdr: 0xFF}
 	pl.Side[1] = sidePlan{Eph: "peer", Auth: "self", Hdr: 0xFF}
 	runHandshakePlan(t, pl)
+}
+
+// TestHandshakeControls: the operators mean what they claim.  An untouched relay authenticates the two honest
+// sides to each other, and a full active man in the middle that runs two handshakes of its own (own ephemeral
+// keys, own long-term key, correct signatures) is accepted by both sides under ITS key - for both key types.
+// A failure here is not a C18 violation by itself; it says the handshake no longer speaks the wire protocol the
+// attacker model was written against, so TestHandshakeMITM would pass vacuously.
+func TestHandshakeControls(t *testing.T) {
+	for _, secp := range []bool{false, true} {
+		ks := keySpec{Secp: secp}
+		vstat.Eval()
+		pl := hsPlan{Scenario: "relay", KA: ks, KB: ks, KV: ks, Seed: 7}
+		pl.Side[0] = sidePlan{Eph: "peer", Auth: "peer", Hdr: 0xFF}
+		pl.Side[1] = sidePlan{Eph: "peer", Auth: "peer", Hdr: 0xFF}
+		res, _ := runHandshakePlan(t, pl)
+		kA, kB := mkKey("A", ks), mkKey("B", ks)
+		if !res[0].ok || !res[1].ok || !res[0].key.Equals(kB.PubKey()) || !res[1].key.Equals(kA.PubKey()) {
+			t.Fatalf("control: untouched relay (secp=%v) does not authenticate the honest sides to each other: A=%+v B=%+v", secp, res[0], res[1])
+		}
+		for _, ck := range []string{"m-ed", "m-secp"} {
+			vstat.Eval()
+			pl := hsPlan{Scenario: "active", KA: ks, KB: ks, KV: ks, Seed: 7}
+			sig := map[string]string{"m-ed": "valid-ed", "m-secp": "valid-secp"}[ck]
+			pl.Side[0] = sidePlan{Eph: "atk", EphAtk: 4, Seed: 11, Auth: "crafted", CKey: ck, CSig: sig, Hdr: 0xFF}
+			pl.Side[1] = sidePlan{Eph: "atk", EphAtk: 0, Seed: 12, Auth: "crafted", CKey: ck, CSig: sig, Hdr: 0xFF}
+			res, _ := runHandshakePlan(t, pl)
+			for i := range res {
+				if !res[i].ok || res[i].key.Equals(kA.PubKey()) || res[i].key.Equals(kB.PubKey()) {
+					t.Fatalf("control: active attacker with its own %s key and a correct signature: side %d reports %+v", ck, i, res[i])
+				}
+			}
+		}
+	}
 }
